@@ -78,3 +78,34 @@ func TestWitnesses(t *testing.T) {
 		}, "RollbackTrie")
 	})
 }
+
+func TestWitnessStaleCreated(t *testing.T) {
+	ev.Witness(t, "C13-early-exit-commit-keeps-created-list", func() string {
+		db := memkv.New()
+		var failure string
+		var m *wmkit.Machine
+		m = wmkit.New(db, func(f string, a ...any) {
+			if failure == "" {
+				failure = fmt.Sprintf(f, a...)
+			}
+			panic("stop")
+		})
+		func() {
+			defer func() { recover() }()
+			m.Update(key(0), []byte{0, 1, 1, 0})
+			m.Commit(0)
+			root, weight := append([]byte(nil), m.T.Root()...), m.T.Weight()
+			m.Delete(key(0)) // everything deleted: the next commit has nothing to save
+			m.Commit(0)
+			m.Logf("RollbackTrie (no SaveRoot)")
+			m.T.RollbackTrie(wmpt.NewHashNode(root, weight))
+			if w := refwmpt.WalkFrom(root, db.Getter()); len(w.Missing) > 0 {
+				m.Fail("the checkpoint root no longer resolves from storage: missing %v", w.Missing)
+			}
+		}()
+		if failure != "" {
+			return m.History() + ": " + failure
+		}
+		return ""
+	})
+}
